@@ -6,9 +6,11 @@ package rt
 import (
 	"encoding/json"
 	"fmt"
+	"io"
 	"math/big"
 	"os"
 	"reflect"
+	"runtime"
 	"strconv"
 	"strings"
 	"time"
@@ -16,8 +18,15 @@ import (
 	"github.com/ethereum/go-ethereum/accounts/abi"
 
 	"github.com/cosmos/cosmos-sdk/codec"
+	codectypes "github.com/cosmos/cosmos-sdk/codec/types"
+	"github.com/cosmos/cosmos-sdk/store/cachekv"
+	"github.com/cosmos/cosmos-sdk/store/dbadapter"
+	storetypes "github.com/cosmos/cosmos-sdk/store/types"
 	sdk "github.com/cosmos/cosmos-sdk/types"
 	paramtypes "github.com/cosmos/cosmos-sdk/x/params/types"
+	"github.com/tendermint/tendermint/libs/log"
+	tmproto "github.com/tendermint/tendermint/proto/tendermint/types"
+	dbm "github.com/tendermint/tm-db"
 )
 
 // ---- replay state (native only) ----
@@ -34,6 +43,7 @@ type Replay struct {
 	Obligation string            `json:"obligation"`
 	Values     []Value           `json:"values"`
 	Literals   map[string]string `json:"literals,omitempty"`
+	Lens       map[string]uint64 `json:"lens,omitempty"`
 }
 
 var (
@@ -117,6 +127,18 @@ func strOf(elem string) string {
 		return s
 	}
 	s := fmt.Sprintf("s%dx", len(strElems))
+	if replay != nil {
+		if n, ok := replay.Lens[elem]; ok && n < 1<<16 {
+			// a string of the length the solver's model gives this element, different from every other element
+			for uint64(len(s)) < n {
+				s += s
+			}
+			s = s[:n]
+			if n > 0 && n < 4 {
+				s = string([]byte{byte(len(strElems) + 1), 0, 0}[:n])
+			}
+		}
+	}
 	strElems[elem] = s
 	return s
 }
@@ -155,7 +177,9 @@ func BytesN(tag string, n int) []byte {
 	return out
 }
 func BigInt(tag string) *big.Int { return parseInt(first(next("bigint"))) }
-func Time(tag string) time.Time  { return time.Unix(0, 0).Add(time.Duration(parseInt(first(next("time"))).Int64())) }
+func Time(tag string) time.Time {
+	return time.Unix(0, 0).Add(time.Duration(parseBVBig(first(next("time"))).Int64())).UTC()
+}
 
 // Fresh fills *ptr with an arbitrary value of its type (slices up to length 2, non-nil pointers).
 func Fresh(ptr interface{}, tag string) { FreshOpt(ptr, tag, 2, false) }
@@ -175,7 +199,7 @@ func fill(v reflect.Value, maxLen int, nilPtrs bool) {
 		v.Set(reflect.ValueOf(*parseInt(first(next("bigint")))))
 		return
 	case timeT:
-		v.Set(reflect.ValueOf(time.Unix(0, 0).Add(time.Duration(parseInt(first(next("time"))).Int64()))))
+		v.Set(reflect.ValueOf(time.Unix(0, 0).Add(time.Duration(parseBVBig(first(next("time"))).Int64())).UTC()))
 		return
 	case sdkIntT:
 		if nilPtrs && strings.TrimSpace(first(next("bool"))) == "true" {
@@ -238,6 +262,9 @@ type assumeFailed struct{}
 // Assume restricts the explored inputs; placed before the code it constrains.
 func Assume(c bool) {
 	if !c {
+		if _, file, line, ok := runtime.Caller(1); ok {
+			Notes = append(Notes, fmt.Sprintf("assumption failed at %s:%d", file, line))
+		}
 		panic(assumeFailed{})
 	}
 }
@@ -311,22 +338,111 @@ func RunNative(f func()) (ok bool) {
 // ---- environment ----
 
 // Ctx returns a context over stores with an arbitrary pre-state; EmptyCtx over empty stores.
-func Ctx() sdk.Context      { panic("rt.Ctx: native contexts are provided by rtnative") }
-func EmptyCtx() sdk.Context { panic("rt.EmptyCtx: native contexts are provided by rtnative") }
+func Ctx() sdk.Context      { return nativeCtx() }
+func EmptyCtx() sdk.Context { return nativeCtx() }
 
-func Codec() codec.BinaryCodec { panic("rt.Codec: native codec is provided by rtnative") }
+// RegisterInterfaces lets a harness add its module's interface registrations to the native codec.
+var nativeRegistry = codectypes.NewInterfaceRegistry()
+
+func RegisterInterfaces(f func(codectypes.InterfaceRegistry)) { f(nativeRegistry) }
+
+func Codec() codec.BinaryCodec { return codec.NewProtoCodec(nativeRegistry) }
+
+// ---- native multistore: one in-memory store per key, created on demand; cache scopes as in the SDK ----
+
+type lazyMS struct {
+	parent *lazyMS
+	stores map[string]storetypes.KVStore
+}
+
+func newLazyMS() *lazyMS { return &lazyMS{stores: map[string]storetypes.KVStore{}} }
+
+func (m *lazyMS) GetKVStore(k storetypes.StoreKey) storetypes.KVStore {
+	if s, ok := m.stores[k.Name()]; ok {
+		return s
+	}
+	var s storetypes.KVStore
+	if m.parent != nil {
+		s = cachekv.NewStore(m.parent.GetKVStore(k))
+	} else {
+		s = dbadapter.Store{DB: dbm.NewMemDB()}
+	}
+	m.stores[k.Name()] = s
+	return s
+}
+func (m *lazyMS) GetStore(k storetypes.StoreKey) storetypes.Store { return m.GetKVStore(k) }
+func (m *lazyMS) GetStoreType() storetypes.StoreType              { return storetypes.StoreTypeMulti }
+func (m *lazyMS) CacheWrap() storetypes.CacheWrap                 { return m.CacheMultiStore().(*lazyMS) }
+func (m *lazyMS) CacheWrapWithTrace(io.Writer, storetypes.TraceContext) storetypes.CacheWrap {
+	return m.CacheWrap()
+}
+func (m *lazyMS) CacheWrapWithListeners(storetypes.StoreKey, []storetypes.WriteListener) storetypes.CacheWrap {
+	return m.CacheWrap()
+}
+func (m *lazyMS) CacheMultiStore() storetypes.CacheMultiStore {
+	return &lazyMS{parent: m, stores: map[string]storetypes.KVStore{}}
+}
+func (m *lazyMS) CacheMultiStoreWithVersion(int64) (storetypes.CacheMultiStore, error) {
+	return m.CacheMultiStore(), nil
+}
+func (m *lazyMS) TracingEnabled() bool                                            { return false }
+func (m *lazyMS) SetTracer(io.Writer) storetypes.MultiStore                       { return m }
+func (m *lazyMS) SetTracingContext(storetypes.TraceContext) storetypes.MultiStore { return m }
+func (m *lazyMS) ListeningEnabled(storetypes.StoreKey) bool                       { return false }
+func (m *lazyMS) AddListeners(storetypes.StoreKey, []storetypes.WriteListener)    {}
+func (m *lazyMS) Write() {
+	for _, s := range m.stores {
+		if c, ok := s.(*cachekv.Store); ok {
+			c.Write()
+		}
+	}
+}
+
+func nativeCtx() sdk.Context {
+	// the engine created two sources for a context: block time (ns) and height
+	t := parseBVBig(first(next("time")))
+	h := int64(parseBV(first(next("i64"))))
+	hdr := tmproto.Header{Time: time.Unix(0, 0).Add(time.Duration(t.Int64())).UTC(), Height: h, ChainID: "teleport_7001-1"}
+	return sdk.NewContext(newLazyMS(), hdr, false, log.NewNopLogger())
+}
+
+func parseBVBig(s string) *big.Int {
+	s = strings.TrimSpace(s)
+	if strings.HasPrefix(s, "#x") {
+		v, _ := new(big.Int).SetString(s[2:], 16)
+		return v
+	}
+	if strings.HasPrefix(s, "#b") {
+		v, _ := new(big.Int).SetString(s[2:], 2)
+		return v
+	}
+	return parseInt(s)
+}
 
 // Subspace returns a parameter subspace whose stored parameters are arbitrary values of their types.
-func Subspace() paramtypes.Subspace { panic("rt.Subspace: native subspaces are provided by rtnative") }
+func Subspace() paramtypes.Subspace {
+	return paramtypes.NewSubspace(codec.NewProtoCodec(nativeRegistry), codec.NewLegacyAmino(), StoreKey("params"), sdk.NewTransientStoreKey("transient_params"), "verif")
+}
 
-func StoreKey(name string) sdk.StoreKey { return sdk.NewKVStoreKey(name) }
+var nativeKeys = map[string]*sdk.KVStoreKey{}
+
+func StoreKey(name string) sdk.StoreKey {
+	if k, ok := nativeKeys[name]; ok {
+		return k
+	}
+	k := sdk.NewKVStoreKey(name)
+	nativeKeys[name] = k
+	return k
+}
 
 // StoreWrites: number of writes visible from ctx that have not been part of the arbitrary pre-state.
 func StoreWrites(ctx sdk.Context, store string) int { return 0 }
 func ScopeWrites(ctx sdk.Context, store string) int { return 0 }
 
 // Uninterpreted functions (deterministic, otherwise arbitrary).
-func UFBool(name string, args ...interface{}) bool  { return strings.TrimSpace(first(next("uf:UFBool"))) == "true" }
+func UFBool(name string, args ...interface{}) bool {
+	return strings.TrimSpace(first(next("uf:UFBool"))) == "true"
+}
 func UFU64(name string, args ...interface{}) uint64 { return parseBV(first(next("uf:UFU64"))) }
 func UFStr(name string, args ...interface{}) string { return strOf(first(next("uf:UFStr"))) }
 
